@@ -464,7 +464,17 @@ func intRange(k string) (lo, hi *big.Int) {
 	return new(big.Int).Neg(h), new(big.Int).Sub(h, one)
 }
 
+// annNullOK: an annotated null in a wrapper survives a round trip only when the
+// wrapper is not reached through a pointer or an interface (Unmarshal resets
+// those to nil and the annotations have nowhere to go).
+var annNullOK = true
+
 func genGoVal(t *rapid.T, d drive.TypeDesc, depth int) drive.GoVal {
+	if d.K == "ptr" || d.K == "iface" {
+		saved := annNullOK
+		annNullOK = false
+		defer func() { annNullOK = saved }()
+	}
 	var g drive.GoVal
 	switch d.K {
 	case "bool":
@@ -472,7 +482,7 @@ func genGoVal(t *rapid.T, d drive.TypeDesc, depth int) drive.GoVal {
 	case "int", "int8", "int16", "int32", "int64", "uint", "uint8", "uint16", "uint32", "uint64", "uintptr":
 		lo, hi := intRange(d.K)
 		var v *big.Int
-		switch gen.Intn(t, 6) {
+		switch gen.Intn(t, 8) {
 		case 0:
 			v = lo
 		case 1:
@@ -481,6 +491,14 @@ func genGoVal(t *rapid.T, d drive.TypeDesc, depth int) drive.GoVal {
 			v = new(big.Int)
 		case 3:
 			v = new(big.Int).Rsh(hi, 1)
+		case 4:
+			// around the next-narrower signed / unsigned limits (2^7, 2^8, ... 2^63, 2^64)
+			k := gen.Pick(t, []uint{7, 8, 15, 16, 31, 32, 63, 64})
+			v = new(big.Int).Lsh(big.NewInt(1), k)
+			v.Add(v, big.NewInt(int64(gen.Pick(t, []int{-1, 0, 0, 1}))))
+			if lo.Sign() < 0 && gen.Chance(t, 50) {
+				v.Neg(v)
+			}
 		default:
 			v = big.NewInt(int64(gen.Range(t, -200, 200)))
 		}
@@ -609,7 +627,7 @@ func genGoVal(t *rapid.T, d drive.TypeDesc, depth int) drive.GoVal {
 			}
 			g.Elems = append(g.Elems, fv)
 		}
-		if isWrapper(d) && len(g.Elems) == 2 && g.Elems[0].Nil {
+		if isWrapper(d) && len(g.Elems) == 2 && g.Elems[0].Nil && !annNullOK {
 			// an annotated null: Unmarshal resets a pointer to the wrapper to nil and
 			// the annotations have nowhere to go; not generated (see assumptions)
 			g.Elems[1].Ann = nil
